@@ -12,7 +12,7 @@ COQ_CASE_TYPE = "case15"
 SHARD = 120
 RULE = ("version pairs a.b.c (1..4 components, multi-digit, leading zeros) around every threshold used (2.2.3, 2.5.5, 2.6.0, 3.0.2) with 9 -> 10 roll-overs, "
         "judged against packaging.version in both layers' min_version; EBB3.connect on a fresh object for handshakes {prompt, late (first probe empty), silent, "
-        "non-EBB, old firmware, exception at open / each write / each read} x {first board, by name, no board}; each legacy gated helper "
+        "non-EBB, old firmware, exception at open / each write / each read} x {first board, by name, no board}; histories on one object: every ordered pair of handshakes (good, old, old multi-digit, late old, non-EBB, silent, open fails) with 1-2 repeated connect() calls, optional disconnect, then requests, judged by the gate (nothing but the version probe reaches a device that has not identified itself as a supported EBB); each legacy gated helper "
         "(servo_timeout, queryVoltage, query_nickname, write_nickname, reboot) against boards reporting versions around its threshold, silent boards and faults; "
         "non-trivial = a version pair with a multi-digit component, or a handshake / gate case with a reply")
 TRUSTED = ["packaging.version as the reference order on dotted decimal versions (Model/Serial3.v parse_version / ver_cmp is compared with it on every pair)",
@@ -54,6 +54,28 @@ def generate(rng, tier):
         ports, given = rng.choice([(S.GOOD_PORTS, None), (S.GOOD_PORTS, "Bot"), (S.GOOD_PORTS, "abc"), ([("COM1", "modem", "USB VID:PID=1:2")], None),
                                    ([("COM1", "modem", "x"), ("COM5", "USB Serial Device (COM5)", "USB VID:PID=04D8:FD92 SER=Bot LOCATION=1")], "bot"), ([], None)])
         cases.append({"kind": "c", "ports": ports, "given": given, "events": ev, "family": "connect/" + name.split(":")[0]})
+    # histories on one object: every handshake, then 0-2 further connect() calls (same or another handshake), then requests:
+    # a device that has not identified itself as a supported EBB must never be sent anything but the version probe
+    hsk = [("good", S.connect_script()), ("old", ["E", "E", ("L", "EBBv13_and_above EB Firmware Version 2.8.1")]),
+           ("old-multidigit", ["E", "E", ("L", "EBBv13_and_above EB Firmware Version 2.10.12")]), ("old-late", ["E", "E", "E", "E", ("L", "EBBv13_and_above EB Firmware Version 3.0.1")]),
+           ("not-ebb", ["E", "E", ("L", "hello"), "E", ("L", "world")]), ("silent", ["E", "E", "E", "E", "E"]), ("open-fails", ["F"])]
+    reps = 1 if tier == "quick" else 6
+    for _ in range(reps):
+        for n1, h1 in hsk:
+            for n2, h2 in [("none", None)] + hsk:
+                calls = [("connect", S.GOOD_PORTS, None)]; ev = list(h1)
+                again = rng.choice([1, 1, 2]) if h2 is not None else 0
+                for _ in range(again):
+                    if rng.random() < 0.25: calls.append(("disconnect",))
+                    calls.append(("connect", S.GOOD_PORTS, None)); ev += list(h2)
+                for _ in range(rng.randint(1, 3)):
+                    t = S.random_call(rng); calls.append(t); ev += S.nominal(t, rng)
+                cases.append({"kind": "h", "calls": calls, "events": ev, "family": "history/%s/%s" % (n1, n2)})
+    # a board refused for its firmware keeps its port open: every one of the request methods on such an object (systematic)
+    for n1, h1 in hsk[1:4]:
+        for m in S.ALL_REQUESTS[:: (1 if tier != "quick" else 2)] + ["reboot", "bootload"]:
+            t = S.sample_call(m, rng)
+            cases.append({"kind": "h", "calls": [("connect", S.GOOD_PORTS, None), t], "events": list(h1) + S.nominal(t, rng), "family": "refused/%s/%s" % (n1, m)})
     # legacy gates
     gates = [("servo", (500, None)), ("servo", (0, 1)), ("voltage", ()), ("query_nick", ()), ("write_nick", ("Bot",)), ("reboot", ()), ("min_version", ("2.5.5",))]
     g = 120 if tier == "quick" else 2400
@@ -81,6 +103,8 @@ def run_impl(c):
     if c["kind"] == "c":
         obs = S.run_history([("connect", c["ports"], c["given"])], c["events"])
         return {"obs": S.jsonable_obs(obs)}
+    if c["kind"] == "h":
+        return {"obs": S.jsonable_obs(S.run_history(c["calls"], c["events"]))}
     script = S.Script(c["events"]); port = S.FakePort(script)
     raised, ret = None, None
     try:
@@ -110,6 +134,9 @@ def coq_case(c, r):
         ports = clist(["(%s, %s, %s)" % (ctext(p[0]), ctext(p[1]), ctext(p[2])) for p in c["ports"]])
         given = "None" if c["given"] is None else "(Some %s)" % ctext(c["given"])
         return "(K15c %s %s %s %s %s)" % (S.coq_cfg(*CFG), ports, given, S.coq_script(c["events"]), S.coq_obs(r["obs"][0]))
+    if c["kind"] == "h":
+        if "raise" in r: return "(K15h %s [] [(CStatus, mkobs true RNone [] None false None 0%%nat)])" % S.coq_cfg(*CFG)
+        return "(K15h %s %s %s)" % (S.coq_cfg(*CFG), S.coq_script(c["events"]), S.coq_history(c["calls"], r["obs"]))
     g, a = c["g"], c["args"]
     gs = {"servo": lambda: "(G_Servo %s %s)" % (cz(a[0]), copt(a[1], cz)), "voltage": lambda: "G_Voltage", "query_nick": lambda: "G_QueryNick",
           "write_nick": lambda: "(G_WriteNick %s)" % ctext(a[0]), "reboot": lambda: "G_Reboot", "min_version": lambda: "(G_MinVersion %s)" % ctext(a[0])}[g]()
